@@ -601,6 +601,12 @@ class JSONSchemaMaker:
         return json_schema
 
 
+class ExtendedSchemaMaker(SchemaMaker):
+    """A :py:class:`SchemaMaker` that accepts the extended vocabulary's ``decimal`` type."""
+
+    ATOMIC = SchemaMaker.ATOMIC | {"decimal"}
+
+
 class JSONSchemaMakerExtendedVocabulary(JSONSchemaMaker):
     """
     A JSONSchemaMaker with an extended, non-standard vocabulary.
@@ -615,9 +621,9 @@ class JSONSchemaMakerExtendedVocabulary(JSONSchemaMaker):
 
     def __init__(self, unpacker: type[Unpacker[NDInstance]] = EBCDIC) -> None:
         super().__init__(unpacker)
-        self.atomic_maker = SchemaMaker()
-        # Extended vocabulary hack.
-        self.atomic_maker.ATOMIC.add("decimal")
+        # Extended vocabulary: a maker with its own ATOMIC set, so the standard
+        # SchemaMaker used everywhere else is left alone.
+        self.atomic_maker = ExtendedSchemaMaker()
 
     def json_type(self, node: DDE) -> JSON:
         """
